@@ -69,6 +69,8 @@ REVERT_EXPECT: Dict[str, List[Tuple[str, str]]] = {
     "8c999d6": [("C06", "K9.identity-term")],
     "e7ccf88": [("C07", "K8.update-equals-rebuild")],
     "e8e6afc": [("C07", "K8.term-order")],
+    "e6696b9": [("C17", "K4.repr-eval")],
+    "b9fae96": [("C17", "K4.roundtrip")],
     "b8efc25": [("C08", "K9.deflation")],
     "a2c7518": [("C04", "K5.ci-search-space")],
 }
